@@ -14,6 +14,7 @@ TEXT = {
  "C11": "Quiescent part: bounded symbolic model checking (as C01) with a full Items scan after every step of every history - each live key exactly once with its current value, then ErrIterationDone on further calls - for all hash layouts within the bound. The concurrent part of the property is not claimed yet.",
  "C14": "Heap-provenance obligations decided on the symbolic executor's object graph for every explored path (returned slices are not reachable from the DB / file buffers; the DB does not reach caller-owned arrays) plus a semantic double check (caller overwrites, later Put/Compact/Close, compare) as SMT obligations; fs.Mem only.",
  "C16": "Symbolic execution at the real constants for boundary key/value lengths (contents partly symbolic): byte-exact round trips through Put/Get/Has/Items, clean restart and crash recovery; rejection of over-long keys/values without side effects; over-long lookups never match a stored key with the same low 16 length bits.",
+ "C05": "Bounded symbolic model checking with threads: Compact runs as one engine thread, a writer as another; the scheduler's choice at every lock acquisition is explored exhaustively within the bound (writer before/between/after any two records compaction processes, between pick and seal), contents and hashes symbolic; afterwards full comparison with the reference, directory check, and process death + real recovery (thorough: crash at any FS call inside the concurrent run).",
  "C08": "Differential symbolic execution of recoveryIterator/segmentIterator (with bufio and io.ReadFull from stdlib SSA) against a reference decoder on segments whose tail bytes are fully symbolic: same accepted records, truncation to the accepted prefix, no error/panic, for all tail contents up to the stated length.",
  "C18": "Differential symbolic execution of the encoders/decoders against a reference written from docs/design.md; all contents symbolic, sizes case-split; MurmurHash3 compared as bit-vector terms for all inputs of each length.",
  "C19": "Every allocation executed during recovery of a segment with a fully symbolic damaged header is an SMT obligation size <= budget, the size being a symbolic expression of the header; unsat covers all 2^48 headers within the tail-length bound.",
@@ -36,7 +37,7 @@ for p in props:
             "technique": "bounded symbolic execution of the real code's go/ssa + SMT (z3), counterexamples replayed natively",
         })
 na = [{"property_id": p['id'], "reason": NA_REASON.get(p['id'], "check not built yet (work in progress); see DESIGN.md")} for p in props if p['id'] not in [c['property_id'] for c in checks]]
-hooks_commits = []
+hooks_commits = ["56ce8d5"]
 m = {"version": 1, "setup_cmd": "./setup.sh",
      "hooks": {"guard": "verif", "enable": "engine loads /repo with -tags=verif; harnesses are injected by overlay, no hook code is required in /repo",
                "baseline_off_cmd": "cd /repo && go test -vet=off -count=1 ./...", "source_commits": hooks_commits, "add_only": True},
